@@ -103,10 +103,13 @@ Definition sec_layout_ok (s : sec_lay) : bool :=
       && fmv_tok_ok (sl_fmv s) && plain_num_ok (strip_commas (sl_fmv s))
   end.
 
+(* no rendered line contains a newline or ends in a carriage return (so that
+   str::lines gives back exactly the rendered lines); nothing before the
+   header mentions ALLOCATION; the header does *)
 Definition layout_ok (t : table_lay) : bool :=
-  forallb (fun l => plain_line (indent t ++ l) && negb (contains t_ALLOCATION (indent t ++ l)))
-          (tl_pre t)
-  && plain_line (indent t ++ tl_header t) && contains t_ALLOCATION (indent t ++ tl_header t)
+  forallb plain_line (render_lines t)
+  && forallb (fun l => negb (contains t_ALLOCATION (indent t ++ l))) (tl_pre t)
+  && contains t_ALLOCATION (indent t ++ tl_header t)
   && negb (is_blank (indent t ++ tl_header t))
   && forallb sec_layout_ok (tl_secs t)
   && total_tok_ok (tl_total t) && plain_num_ok (strip_commas (tl_total t)).
